@@ -155,7 +155,7 @@ theorem entry_applyCall (r r' : Req) (c : Call) (n : Bytes) (h : applyCall r c =
     simp only [applyCall, setBody] at h
     injection h with h; subst h
     simp only [entry_copyContentType, stepName, explicitFor, bodyOf]
-  | bodyReader b =>
+  | bodyReader cs d =>
     simp only [applyCall, setBody] at h
     injection h with h; subst h
     simp only [entry_copyContentType, stepName, explicitFor, bodyOf, BodyKind.mime]
@@ -205,29 +205,19 @@ theorem keysLower_applyCall (r r' : Req) (c : Call) (h : applyCall r c = some r'
   | bodyForm ps =>
     simp only [applyCall, setBody] at h; injection h with h; subst h
     exact keysLower_copyContentType _ _ hl
-  | bodyReader b =>
+  | bodyReader cs d =>
     simp only [applyCall, setBody] at h; injection h with h; subst h
     exact keysLower_copyContentType _ _ hl
   | query u =>
     simp only [applyCall] at h; injection h with h; subst h; exact hl
-
-def isReader : Call → Bool
-  | .bodyReader _ => true
-  | _ => false
-
-/-- the last body call hands over a reader of unknown length (proof device for `Req.lenKnown`) -/
-def lastBodyIsReader : List Call → Bool
-  | [] => false
-  | c :: cs => match lastBody cs with
-    | some _ => lastBodyIsReader cs
-    | none => isReader c
 
 /-- everything the fold does, field by field -/
 theorem foldCalls_spec (cs : List Call) : ∀ (r r' : Req), foldCalls r cs = some r' →
     r'.method = r.method ∧
     r'.url = (lastQuery cs).getD r.url ∧
     r'.body = ((lastBody cs).map (·.2)).getD r.body ∧
-    r'.lenKnown = (match lastBody cs with | none => r.lenKnown | some _ => !lastBodyIsReader cs) ∧
+    (lastBody cs = none → r'.len = r.len) ∧
+    ((r.len = some 0 → r.body = []) → (r'.len = some 0 → r'.body = [])) ∧
     (KeysLower r.headers → KeysLower r'.headers) ∧
     ∀ n, entry r'.headers n = cs.foldl (stepName n) (entry r.headers n) := by
   induction cs with
@@ -242,8 +232,8 @@ theorem foldCalls_spec (cs : List Call) : ∀ (r r' : Req), foldCalls r cs = som
     | none => simp [h1] at h
     | some r1 =>
       simp only [h1] at h
-      obtain ⟨hm, hu, hb, hlk, hk, he⟩ := ih r1 r' h
-      refine ⟨?_, ?_, ?_, ?_, ?_, ?_⟩
+      obtain ⟨hm, hu, hb, hlk, hz, hk, he⟩ := ih r1 r' h
+      refine ⟨?_, ?_, ?_, ?_, ?_, ?_, ?_⟩
       · rw [hm]; cases c <;> simp only [applyCall, setBody] at h1 <;> (try split at h1) <;>
           (try cases h1) <;> rfl
       · rw [hu]; simp only [lastQuery]
@@ -258,12 +248,26 @@ theorem foldCalls_spec (cs : List Call) : ∀ (r r' : Req), foldCalls r cs = som
         | none =>
           cases c <;> simp only [applyCall, setBody] at h1 <;> (try split at h1) <;>
             (try cases h1) <;> simp [bodyOf]
-      · rw [hlk]; simp only [lastBody, lastBodyIsReader]
+      · intro hnone
+        simp only [lastBody] at hnone
         cases hq : lastBody cs with
-        | some u => simp
+        | some u => simp [hq] at hnone
         | none =>
+          simp only [hq] at hnone
+          rw [hlk hq]
           cases c <;> simp only [applyCall, setBody] at h1 <;> (try split at h1) <;>
-            (try cases h1) <;> simp [bodyOf, isReader]
+            (try cases h1) <;> first | rfl | simp [bodyOf] at hnone
+      · intro hr
+        apply hz
+        intro hlen
+        cases c <;> simp only [applyCall, setBody] at h1 <;> (try split at h1) <;> (try cases h1) <;>
+          simp only at hlen ⊢
+        · exact hr hlen
+        · exact hr hlen
+        · simp only [Option.some.injEq] at hlen; exact List.eq_nil_of_length_eq_zero hlen
+        · simp only [Option.some.injEq] at hlen; exact List.eq_nil_of_length_eq_zero hlen
+        · subst hlen; simp [readerContent]
+        · exact hr hlen
       · intro hl; exact hk (keysLower_applyCall r r1 c h1 hl)
       · intro n; rw [he n, entry_applyCall r r1 c n h1]; rfl
 
@@ -345,18 +349,6 @@ theorem foldCalls_none_of_not_inDomain (cs : List Call) : ∀ r : Req, inDomain 
         have := h1.1.2 x hx
         simp [hx'] at this
       · simpa [inDomain] using h
-
-theorem lastBodyIsReader_of_none (cs : List Call) (h : lastBody cs = none) : lastBodyIsReader cs = false := by
-  cases cs with
-  | nil => rfl
-  | cons c cs =>
-    simp only [lastBody] at h
-    simp only [lastBodyIsReader]
-    cases hl : lastBody cs with
-    | some x => simp [hl] at h
-    | none =>
-      simp only [hl] at h
-      cases c <;> simp [bodyOf] at h <;> rfl
 
 theorem documentedMime_eq (k : BodyKind) : documentedMime k = k.mime := by cases k <;> decide
 
